@@ -61,6 +61,9 @@ def run(tier='quick'):
     A5 = chk.rule('A5', 'sqlite_transaction: constructor issues BEGIN, destructor issues ROLLBACK '
                         'exactly when commit() has not completed, commit() issues COMMIT and only '
                         'then sets the flag', floor=4)
+    A6 = chk.rule('A6', 'every SQL statement executes where it is written: its binder is a temporary of the '
+                        'full expression, not a named object (a named database_binder runs in its destructor, at '
+                        'the end of the scope - after a COMMIT written before that point)', floor=300)
     chk.assume('SQLite executes one statement atomically, including the triggers it fires')
     chk.assume('BEGIN .. COMMIT is atomic and ROLLBACK restores the state at BEGIN (both attached '
                'files share the connection)')
@@ -171,6 +174,7 @@ def run(tier='quick'):
 
     # A5
     _guard_shape(prog, eff, chk, A5)
+    immediate_statements(prog, eff, chk, A6)
 
     chk.extra['entry_points'] = n_entries
     chk.extra['transaction_scopes'] = len(txn_funcs)
@@ -184,6 +188,44 @@ def run(tier='quick'):
         'classes), callees inlined through the resolved call graph with memoisation, branches '
         'forked, loops iterated twice, lambda bodies as loops; %d transaction scopes checked for '
         'commit-on-all-normal-exits and nesting' % (n_entries, len(txn_funcs)))
+
+
+def immediate_statements(prog, eff, chk, A6):
+    """sqlite_modern_cpp executes a statement when its database_binder is destroyed.  For the
+    usual `db << "..." << a << b;` that is the end of the full expression.  A binder kept in a
+    named variable (or member, or returned) is executed at the end of its scope instead, so the
+    write unit analysis - which places a statement where it is written - would be wrong, and so
+    is the code if a COMMIT sits in between."""
+    n = 0
+    for f in prog.functions.values():
+        if f.body is None or f.is_pattern or not prog.in_repo(f.file):
+            continue
+        ss = eff.sites(f)
+        if not ss:
+            continue
+        held = {}
+        for x in walk(f.body):
+            if x.get('kind') in ('VarDecl', 'FieldDecl', 'ReturnStmt'):
+                t = (x.get('type') or '')
+                if x.get('kind') == 'ReturnStmt' or 'database_binder' in t or t.strip() in ('auto', 'auto &&', 'auto &'):
+                    for y in walk(x):
+                        held[id(y)] = x
+        for s_ in ss:
+            n += 1
+            h = held.get(id(s_.node))
+            inst = '%s: statement at %s executes at the end of its own full expression' % (
+                '::'.join((f.qualname or '').split('::')[-2:]), locstr(s_.node))
+            if h is None or (h.get('kind') == 'ReturnStmt' and 'database_binder' not in (strip(children(h)[0]).get('type') or '' if children(h) else '')):
+                chk.ok(A6, inst, locstr(s_.node))
+            else:
+                chk.violation(A6, '%s|statement held in %s' % ('::'.join((f.qualname or '').split('::')[-2:]),
+                                                               h.get('name') or h.get('kind')), locstr(s_.node),
+                              '%s: not so - the binder is kept in %s %s, so the statement (%s...) runs when that '
+                              'object is destroyed at the end of its scope; a COMMIT or any statement written '
+                              'after this point executes before it, and a failure then leaves the earlier '
+                              'statements of the operation committed' % (
+                                  inst, h.get('kind'), h.get('name') or '', s_.text[:50]))
+    return n
 
 
 def _guard_shape(prog, eff, chk, A5):
